@@ -152,7 +152,7 @@ theorem JS_handle {e : Env} {G : Block} (E : EnvHyp e G) {w : World} {S : List B
       ∀ ws, readyWallets (stepW e w .handle).s ws = readyWallets w.s ws := by
   rw [stepW_handle_cons hqueue]
   obtain ⟨hI, hv, hS, hAR, hne, hq, hq0, hq1⟩ := hJ
-  have H := reorgHyp_of E hN hS
+  have H := reorgHyp_of hN hS
   have hbk : AMap.get e.known b.id = some b := hq b (by rw [hqueue]; exact List.mem_cons_self)
   have hgen := hgen_of E hS hbk
   have hqk : ∀ x ∈ q, AMap.get e.known x.id = some x :=
